@@ -12,7 +12,8 @@ MANIFEST = dict(
          "(Spec) is evaluated next to the implementation on every hot case; free-running goroutine runs are matched against SOME interleaving (search only). "
          "TakeUntil's two atomic actions are modelled at micro-step level: every schedule is explained by an arrival order (theorem), tied by a parked-signal replay. "
          "Deviation (TakeUntil/SkipUntil drop the signal's error, pinned by tests) is proved as witness + _partial theorems and replayed as a known finding."
-         ' TakeUntil, SkipUntil, SampleWhen, ThrottleWhen and MergeAll (Merge / MergeWith* / MergeMap*) are re-translated from the Go source on every run (go/extract/multigen.go -> RoGen/MultiGen.lean) and proved to refine the hand-written machines (MMachine.Sim, RoProps/C05gen: indistinguishable runs for every configuration of sources, subscription context, interleaving and cut); the C05 theorems are restated for the regenerated machines. A GroupBy group / WindowWhen window keeps its source order while a late subscriber is replayed the backlog (kind=nextret scen=groupby|window, deterministic schedule; premise RoProps/C10 subjects_wellLocked over the regenerated lock skeletons).',
+         ' TakeUntil, SkipUntil, SampleWhen, ThrottleWhen and MergeAll (Merge / MergeWith* / MergeMap*) are re-translated from the Go source on every run (go/extract/multigen.go -> RoGen/MultiGen.lean) and proved to refine the hand-written machines (MMachine.Sim, RoProps/C05gen: indistinguishable runs for every configuration of sources, subscription context, interleaving and cut); the C05 theorems are restated for the regenerated machines. A GroupBy group / WindowWhen window keeps its source order while a late subscriber is replayed the backlog (kind=nextret scen=groupby|window, deterministic schedule; premise RoProps/C10 subjects_wellLocked over the regenerated lock skeletons).'
+         " One multi-source operator VALUE applied to several sources before anything is subscribed: every result consumes its own sources (the kind=reusemulti runs read through C05's projection).",
     technique="Lean 4 proof (induction over arbitrary event sequences with machine invariants; generic emit-only refinement theorem) + differential correspondence of the executable model against the implementation",
     ref='5/C05')
 
